@@ -489,6 +489,8 @@ def _run_behaviour(beh):
                 except exceptions.RopeError:
                     res.write(src)
                     continue
+                except pt.Hang:
+                    raise
                 except Exception as e:  # noqa
                     res.write(src)
                     fail("HistoryCrash", goal=gid, exc=type(e).__name__, earlier=pre_src)
